@@ -2,6 +2,8 @@
 
 from __future__ import annotations
 
+from datetime import timedelta as td
+
 import json
 
 from checks import gwy_common as GC
@@ -164,6 +166,14 @@ def run_history(t: E.Tally, lines: list, rep: dict, *, eavesdrop: bool, check_at
             res = None  # (already reported by views)
         if len(lines) - 1 in snap_at:
             snapshot_cycle(w, gwy, t, rep, f"{label} at the end")
+        # ... and later: nothing more is heard while the clock runs on (messages age out at 20 min .. 2 h .. a day); every view is read
+        # twice at each age (the first read of an expired message is the one that removes it)
+        for age in (td(minutes=45), td(hours=2, minutes=10), td(hours=50)):
+            w.set_time(w.now() + age)
+            for n in (1, 2):
+                views(gwy, t, rep, f"{label} at the end + {age} of silence (read {n})")
+        if len(lines) - 1 in snap_at:
+            snapshot_cycle(w, gwy, t, rep, f"{label} after the silence")
         return res
     finally:
         w.close()
